@@ -1,7 +1,7 @@
 (* C07: non-in-place operations never modify their inputs; in-place is equivalent.   [PARTIAL]
    Part (a): content-level theorems about the `self if inplace else self.copy()` pattern, for all tables.
    Part (b): theorems about hand-written effect signatures (Model/Effects.v), proved by evaluating a
-   boolean check over the WHOLE finite domain  20 operations x 2 layout kinds x 3888 flag vectors
+   boolean check over the WHOLE finite domain  21 operations x 2 layout kinds x 3888 flag vectors
    (inplace x axis{obs,samp,whole} x receiver metadata{none,flat,nested}^2 x argument metadata^2 x 3 booleans)
    with vm_compute, lifted to a universally quantified statement with forallb_forall.
    Why partial: the signatures are a hand abstraction of CPython object identity; what ties them to
@@ -100,7 +100,7 @@ Print Assumptions update_ids_outcome.
 (* ================= (b) effect signatures, whole finite domain ================= *)
 (* No call that does not work in place (inplace=False, or an operation documented to return a new
    table) writes into an object reachable from the receiver or an argument table, nor re-assigns
-   one of their attributes. Domain: all 20 x 2 x 3888 calls. *)
+   one of their attributes. Domain: all 21 x 2 x 3888 calls. *)
 Theorem noninplace_pure : forall o lk fl,
   in_place o fl = false ->
   (forall l, In l (written (eff o lk fl)) -> is_input (fst l) = false) /\
@@ -115,7 +115,7 @@ Print Assumptions mutable_components.
 
 (* No mutable component of the result of such a call is (or views, or holds objects of) a
    component of the receiver or of an argument: later in-place operations on the result cannot
-   show through. Domain: all 20 x 2 x 3888 calls. *)
+   show through. Domain: all 21 x 2 x 3888 calls. *)
 Theorem result_separate : forall o lk fl,
   in_place o fl = false ->
   forall c, In c mutable_comps -> forall r, In r (roots FUEL (eff o lk fl) (Res, c)) -> is_input (fst r) = false.
